@@ -40,6 +40,8 @@ use crate::{Attribute, LocalName, QualName, SmallCharSet};
 mod char_ref;
 mod interface;
 pub mod states;
+#[cfg(html5ever_verif)]
+pub mod verif;
 
 /// The result of invoking the tokenizer once.
 pub enum ProcessResult<Handle> {
